@@ -4,9 +4,11 @@ def I(name, entry, cfg, bound, **kw):
     d = dict(name=name, entry='h_' + entry, unwind=5, timeout_s=300, mem_gb=6, cdefs={'VP_CFG': cfg}, bound=B + bound); d.update(kw); return d
 # VP_CFG bits: 1 = continuation attached before the event (else after), 2/4/8 = type/id/from attribute present, 16/32 = outcome of the stream send
 STANZA = [I('stanza_%s%s' % (n, 'e' if e else 'l'), 'stanza', c | e, 'one arbitrary top-level element (tag <= 3, type <= 6, id <= 2, from <= 3 units), attributes present: ' + n)
-          for (n, c) in (('tif', 14), ('ti', 6), ('tf', 10), ('if', 12)) for e in (1, 0) if not (e == 0 and n in ('tf', 'if'))]
+          for (n, c) in (('tif', 14), ('ti', 6), ('tf', 10), ('if', 12), ('t', 2), ('i', 4), ('none', 0)) for e in (1, 0)]
+for i in STANZA:
+    if i['name'] in ('stanza_tfl', 'stanza_ifl') or i['name'][7:-1] in ('t', 'i', 'none'): i['tiers'] = ('thorough',)
 SEND = [I('send_packet_%s' % n, 'send_packet', m << 4, 'arbitrary id <= 2 / addressee <= 3 units incl. empty and duplicate; stream send ' + n) for (n, m) in (('ok', 0), ('fail', 1), ('pending', 2), ('pending_then_fail', 2 | 1 << 2 | 1 << 4), ('pending_then_ok', 2 | 2 << 2 | 1 << 4))] + \
-       [I('send_iq_%s' % n, 'send_iq', m << 4, 'QXmppIq with arbitrary id / to (incl. empty), arbitrary own bare JID, arbitrary generated ids; stream send ' + n) for (n, m) in (('ok', 0), ('fail', 1))] + \
+       [I('send_iq_%s' % n, 'send_iq', m << 4, 'QXmppIq with arbitrary id / to (incl. empty), arbitrary own bare JID, arbitrary generated ids; stream send ' + n, tiers=(('quick', 'thorough') if m < 2 else ('thorough',))) for (n, m) in (('ok', 0), ('fail', 1), ('pending', 2))] + \
        [I('send_then_reply', 'send_then_reply', 256, 'two events: valid send (new id 2 units, pending ids 1 unit), then result/error reply with that id and arbitrary from <= 3 units')]
 SPEC = dict(
     property='C07',
@@ -14,9 +16,9 @@ SPEC = dict(
         dict(name='step', harness='h.cpp', tus=TUS, models=['qt_core.c', 'qt_list.c', 'qt_dom.c', 'models.c'], shadow_task=True,
              loop_bounds={r'^_ZNSt6ranges14__copy_or_move': 110},
              instances=STANZA + [
-             ] + [I('%s_%s' % (n, 'e' if e else 'l'), 'session', e | k << 4, 'event ' + d) for (k, n, d) in
+             ] + [I('%s_%s' % (n, 'e' if e else 'l'), 'session', e | k << 4, 'event ' + d, tiers=(('quick', 'thorough') if e or k == 0 else ('thorough',))) for (k, n, d) in
                   ((0, 'opened', 'onSessionOpened(arbitrary SessionBegin: resumed or not)'), (1, 'closed', 'onSessionClosed(canResume?)'), (2, 'cancelall', 'cancelAll()'), (3, 'destroy', '~QXmppOutgoingClient()'))
-                  for e in (1, 0) if e or k == 0] + [
+                  for e in (1, 0)] + [
                  I('finish', 'finish', 1, 'finish(id, result) with arbitrary id'),
              ]),
         # own group: the continuation of OutgoingIqManager::sendIq must not be a dispatch candidate in the step group (see README note in c07_common.h)
@@ -24,13 +26,14 @@ SPEC = dict(
              loop_bounds={r'^_ZNSt6ranges14__copy_or_move': 110}, instances=SEND),
         dict(name='reenter', harness='h_reenter.cpp', tus=TUS, models=['qt_core.c', 'qt_list.c', 'qt_dom.c', 'models.c'], shadow_task=True,
              loop_bounds={r'^_ZNSt6ranges14__copy_or_move': 110},
-             instances=[I('reenter_opened', 'reenter', 768 | 0 << 4, 'handler of a cancelled request re-sends under a fresh id during onSessionOpened(new session)'),
+             instances=[I('reenter_cancelall', 'reenter', 768 | 2 << 4, 'same during cancelAll()', tiers=('thorough',)), I('reenter_opened', 'reenter', 768 | 0 << 4, 'handler of a cancelled request re-sends under a fresh id during onSessionOpened(new session)'),
                         I('reenter_closed', 'reenter', 768 | 1 << 4, 'same during onSessionClosed(cannot resume)')]),
         dict(name='chain', harness='h_chain.cpp', tus=TUS, models=['qt_core.c', 'qt_list.c', 'qt_dom.c', 'models.c'], shadow_task=True,
              loop_bounds={r'^_ZNSt6ranges14__copy_or_move': 110},
              instances=[
                  I('chain_conv', 'chain', 1, 'chainIq with converter (QXmppClient::sendGenericIq), continuation before reply'),
                  I('chain_conv_l', 'chain', 0, 'chainIq with converter, continuation after reply'),
+                 I('chain_typed_l', 'chain', 2, 'chainIq<variant<QXmppIq,QXmppError>>, continuation after reply', tiers=('thorough',)),
                  I('chain_typed', 'chain', 3, 'chainIq<variant<QXmppIq,QXmppError>>, continuation before reply'),
              ]),
     ],
